@@ -82,6 +82,18 @@ ROUND 4 (seeded/C06-r4m1, C06-r4m3 escaped; both now caught with concrete replay
     a single replacement) whose common prefix has consumers / is a graph output
     -> r4m3 (length check replaced by zip(strict=True) inside the replacing loop) caught at X_ConvReplaceAllUses.
 
+REPORTED BY AN INDEPENDENT ENGINEER, reproduced on the unchanged tree:
+  (1) Node(..., attributes=[<not an Attr>], outputs=[v]) raises AttributeError AFTER _create_outputs claimed v: v.producer()
+      is the unreachable half-built node (even Value.graph / repr crash on it).  Genuine (the docstring lists rejected
+      attributes as a raising case): finding node-ctor-rejected-claims-outputs (C01 I2 + C06; REPAIRED by /repo f654182), oracle stream gen_bad_node
+      (op X_NewNodeBadAttr; attributes are not in the Coq model), proposed_fixes/C06-node-ctor-attributes-first.diff +
+      C06-node-ctor-demo.py (build the attributes before claiming the outputs; 790 tests pass; check on the patched
+      worktree reports only known-finding-stale).  The snapshot tolerates accessors that raise (handle 9998).
+  (2) Graph.remove(n) after a hand-written `n.graph = g` clears n.graph and then raises because n is not in the node list:
+      reproduced, NOT recorded - the precondition can only be produced with the raw `Node.graph` setter, which DESIGN 3.1
+      excludes from the editing alphabet as an internal hand-off; in every state reachable through the public mutators
+      `n.graph is g` implies membership (clause I3 of C01_inv_reachable_fixed), so the raise cannot happen there.
+
 READING.  "every observable property of every reachable IR object" = the accessors of C01's observe_at list for every
 object the history ever created (a superset of the reachable ones), plus object counts.  Hidden state (ref counters,
 name-authority sets) is part of the model-side theorem only; a rejected call that corrupts only hidden state is still
